@@ -193,10 +193,11 @@ impl StatusMessage {
     }
 
     pub fn encode(&self) -> Vec<u8> {
+        let status = self.status.to_string();
         let mut buf = BytesMut::new();
-        buf.put_u16(3);
+        buf.put_u16((1 + status.len()) as u16);
         buf.put_u8(HANDSHAKE_TAG_S);
-        buf.put_u16(self.status as u16);
+        buf.put_slice(status.as_bytes());
         buf.to_vec()
     }
 
